@@ -187,7 +187,8 @@ type vfC16Rec struct {
 	Refreshes int         `json:"refreshes"`
 	Err       string      `json:"err"`
 	Panic     string      `json:"panic"`
-	Stuck     string      `json:"stuck"` // "" | what the goroutines' stacks show about a call that cannot return
+	UpCalls   []string    `json:"upcalls"` // hosts the policy was told "up" for during the step while their node was not answering
+	Stuck     string      `json:"stuck"`   // "" | what the goroutines' stacks show about a call that cannot return
 	Waited    int         `json:"waited_ms"`
 	Matched   bool        `json:"matched"`
 }
@@ -235,6 +236,7 @@ type vfC16World struct {
 	parked      bool
 	noBeat      int32 // the control connection's heartbeat does not get through (its period "has not elapsed yet")
 	stuck       string
+	upCalls     []string
 	async       bool // refresh steps do not wait for the call to return (set while a step is held)
 	holdPeers   bool // the next system.peers answer is withheld (after the rows have been read)
 	peersHeld   chan struct{}
@@ -273,6 +275,16 @@ func (p *vfC16Policy) Init(s *Session) {
 }
 
 func (p *vfC16Policy) HostUp(h *HostInfo) {
+	if n := p.w.dialer.Node(h.ConnectAddress().String()); n != nil {
+		n.mu.Lock()
+		down := n.Down
+		n.mu.Unlock()
+		if down {
+			p.w.tmu.Lock()
+			p.w.upCalls = append(p.w.upCalls, p.w.names.I(h.HostID()))
+			p.w.tmu.Unlock()
+		}
+	}
 	p.HostSelectionPolicy.HostUp(h)
 	atomic.AddInt64(&p.w.hostUps, 1)
 }
@@ -692,7 +704,11 @@ func (w *vfC16World) close() {
 
 func (w *vfC16World) project(withQueries bool) *vfC16Rec {
 	s, nm := w.s, w.names
-	r := &vfC16Rec{Hosts: []vfC16Host{}, ByID: []vfC16HA{}, ByAddr: []vfC16PA{}, HList: []string{}, Pool: []vfC16PA{}, Pol: []vfC16PA{}, Served: []string{}}
+	r := &vfC16Rec{Hosts: []vfC16Host{}, ByID: []vfC16HA{}, ByAddr: []vfC16PA{}, HList: []string{}, Pool: []vfC16PA{}, Pol: []vfC16PA{}, Served: []string{}, UpCalls: []string{}}
+	w.tmu.Lock()
+	r.UpCalls = append(r.UpCalls, w.upCalls...)
+	w.tmu.Unlock()
+	sort.Strings(r.UpCalls)
 	for _, h := range s.ring.allHosts() {
 		r.Hosts = append(r.Hosts, vfC16Host{ID: nm.I(h.HostID()), Addr: nm.A(h.ConnectAddress()), N2N: nm.A(h.nodeToNodeAddress()), Up: h.IsUp()})
 	}
@@ -1083,6 +1099,9 @@ func (w *vfC16World) exec(st *vfC16Step) (errs string, pan string) {
 		}
 	}()
 	w.cut = nil
+	w.tmu.Lock()
+	w.upCalls = nil
+	w.tmu.Unlock()
 	switch st.Op {
 	case "refresh":
 		w.setTruth(st.Rows)
@@ -1398,7 +1417,7 @@ func vfC16Run(sc *vfC16Scenario, out *vfNDJSON) (steps int, timeouts int, err er
 	}
 	if w.stalled {
 		out.Write(&vfC16Rec{Sc: sc.N, K: -1, Mode: sc.Mode, Op: "stalled", Rows: []vfC16Row{}, Fail: "none", Evs: []vfC16Ev{}, Filt: []string{}, C0: sc.C0, Policy: sc.Pol,
-			Hosts: []vfC16Host{}, ByID: []vfC16HA{}, ByAddr: []vfC16PA{}, HList: []string{}, Pool: []vfC16PA{}, Pol: []vfC16PA{}, Served: []string{}})
+			Hosts: []vfC16Host{}, ByID: []vfC16HA{}, ByAddr: []vfC16PA{}, HList: []string{}, Pool: []vfC16PA{}, Pol: []vfC16PA{}, Served: []string{}, UpCalls: []string{}})
 	}
 	if w.mismatch {
 		timeouts = 1
